@@ -6,7 +6,7 @@
 //   H <workers> <rounds> <b,b,...>    Http::Endpoint (header/body time-out 600 ms) with an Http::Handler:
 //        c connect+close, f request/response/close, k two keep-alive requests, d partial head+close, b partial body+close,
 //        h request+shutdown(WR)+read to EOF, r request+RST, i silence until the server closes, j partial head then silence,
-//        m request/response then silence until the server closes, w 24 MB answer never read (write blocked across several idle scans) then RST
+//        m request/response then silence until the server closes, z slow 24 MB answer requested and the connection closed at once, w 24 MB answer never read (write blocked across several idle scans) then RST
 //     -> <T|H> conns=<connections made> logs=<sorted per-peer callback logs: C connection, I input/request (collapsed), D disconnection>
 //            after_disc=<callbacks seen for a peer after its disconnection> fd_delta=<open descriptors at the end - idle baseline>
 #include <pistache/endpoint.h>
@@ -83,7 +83,13 @@ public:
     void onRequest(const Http::Request& req, Http::ResponseWriter response) override
     {
         g_log.add(response.getPeer()->getID(), 'I');
-        if (req.resource() == "/big")
+        if (req.resource() == "/slowbig")
+        {
+            // the handler takes a while (the peer may be gone by the time it answers), then answers with a large body
+            std::this_thread::sleep_for(std::chrono::milliseconds(200));
+            response.send(Http::Code::Ok, std::string(24u << 20, 'y'));
+        }
+        else if (req.resource() == "/big")
             response.send(Http::Code::Ok, std::string(24u << 20, 'x'));
         else
             response.send(Http::Code::Ok, "hello " + req.resource());
@@ -214,6 +220,11 @@ void http_client(char b, uint16_t port)
         pv::send_all(fd, kReq);
         read_response(fd);
         read_to_eof(fd, 4000);
+        ::close(fd);
+        break;
+    case 'z':
+        // ask for a slow, large answer and close at once: the answer is written to a connection whose peer has gone
+        pv::send_all(fd, "GET /slowbig HTTP/1.1\r\nHost: a\r\n\r\n");
         ::close(fd);
         break;
     case 'w':
